@@ -32,11 +32,19 @@ RULE = ('correspondence: (1) fixup_one_index / fixup_slice_indices exhaustively 
         'and resolved indices; (3) FSTView objects with arbitrary (also stale) _start/_stop on fields of length 0..6, every '
         'view operation, the indices handed to the base node and the view afterwards (simulated edit = plain list slice '
         'assignment); (4) virtual field element maps on generated Dict / MatchMapping / Compare / arguments / Call / '
-        'ClassDef / MatchClass / docstring bodies. sweep: for every (kind, field) witness family (all list fields with a '
+        'ClassDef / MatchClass / docstring bodies; (5) multi-step histories on ONE view object (whole-field and bounded views made '
+        'by slicing): deterministic product of field lengths x windows x pairs of mutating operations (item/slice assignment '
+        'incl. None, item/slice delete, replace, remove, insert, append, extend, prepend, prextend), then random longer '
+        'histories, compared with the model after every step. sweep: for every (kind, field) witness family (all list fields with a '
         'slice handler, all virtual fields, AST-valued optional fields) and for corpus programs: random (start, stop) in '
         'raw forms (negative, out of range, "end"), 0-2 new elements, through every equivalent entry point on twin copies '
         'in several layouts; whole-tree ast.dump must equal CPython\'s parse of the source rendered from '
-        'old[:start] + new + old[stop:] (plain Python lists). distinct = distinct (family, request, entry point, layout)')
+        'old[:start] + new + old[stop:] (plain Python lists); calls / class bases with interleaved positional, *starred, keyword '
+        'and **double-starred arguments laid out over several lines (a *starred on a later line at a smaller column than the '
+        'keyword before it) through _args/_bases and through the real fields args/bases/keywords (pure-ast expected tree, '
+        'plus: the resulting source must be valid Python of that structure); views kept across 2-4 operations (deterministic '
+        'product on bounded windows first): tree, len(view), view.start/stop and shown elements against a Python list window '
+        'after every step. distinct = distinct (family, request, entry point, layout)')
 TRUSTED = [
     'modelled: fst_misc.fixup_one_index, fixup_slice_indices; fst._swizzle_getput_params and the argument normalisation of '
     'FST.put_slice/put/insert/append/extend/prepend/prextend/get_slice/get; FSTView._base_indices, _fixup_item_indices, '
@@ -49,7 +57,11 @@ TRUSTED = [
     'sweep exclusions: Interactive.body, the special slice container kinds (_Assign_targets, _aliases, ...), identifier-'
     'valued optional fields, Compare insertions (an operator must be supplied; only operand replacement one-for-one and '
     'deletion are checked, operators are blanked before comparing), requests whose result would leave a field below its '
-    'minimum length, requests Python reads as an empty slice with start > stop (documented IndexError refusal)',
+    'minimum length, requests Python reads as an empty slice with start > stop (documented IndexError refusal), '
+    'element.replace()/remove() on Compare operands and on interleaved call arguments (the element\'s own real field refuses '
+    'and points to the virtual field), NodeError/ValueError ordering refusals on the real fields args/bases/keywords of '
+    'interleaved calls (counted in notes); validity of the resulting SOURCE is checked only for those interleaved real-field '
+    'edits (elsewhere it is C01\'s subject)',
 ]
 ASSUMPTIONS = ['a handler given (start, stop) edits exactly that range (checked per case by the sweep, not proved)',
                'CPython ast.parse of the rendered expected source is the judge of the expected structure']
@@ -114,6 +126,8 @@ def correspondence(ctx):
     for c, i in zip(cases, impl):
         ctx.tally('view_op', c['op'] + (':IndexError' if i == 'IndexError' else ''))
     _compare(ctx, 'FSTView index arithmetic vs Pfst.View', cases, impl)
+    cases, impl = c03_corr.view_history_cases(rng, 300 if q else 3000, full_product=not q)
+    _compare(ctx, 'FSTView multi-step histories on one view object (bounded windows) vs Pfst.View', cases, impl)
     cases, impl = c03_corr.virt_cases(rng, 800 if q else 8000)
     for c in cases:
         ctx.tally('virtual_field', c['kind'])
@@ -127,12 +141,12 @@ def _report(ctx, recs):
         ctx.tally('entry_point', r['op'])
         ctx.tally('layout_variant', bool(r.get('layout')))
         if 'fail' in r:
-            sig = f'C03|{r["op"]}|{r["fam"]}|{r["fail"]}'
+            sig = f'C03|{r.get("sigop", r["op"])}|{r["fam"]}|{r["fail"]}'
             ctx.fail(sig, f'{r["op"]} on {r["fam"]}: {r["fail"]} {r.get("detail", "")[:300]}',
                      {k: v for k, v in r.items() if k != 'want'} | {'want': r.get('want')})
 
 
-def _sweep(ctx, per_family, per_optional, n_progs, per_prog):
+def _sweep(ctx, per_family, per_optional, n_progs, per_prog, full_product=False):
     nf = len(c03_edits.FAMILIES)
     res = pmap(c03_edits.run_family_case, [(i, ctx.rng.randrange(1 << 30), per_family) for i in range(nf)], chunksize=1)
     n = 0
@@ -144,11 +158,25 @@ def _sweep(ctx, per_family, per_optional, n_progs, per_prog):
     for lst in res:
         n += len(lst)
         _report(ctx, lst)
-    res = pmap(c03_edits.run_view_seq_case, [(i, ctx.rng.randrange(1 << 30), max(10, per_family // 3))
-                                             for i in c03_edits.VIEW_SEQ_FAMILIES for _ in range(4)], chunksize=1)
+    # views kept across several operations: deterministic product first (fields x windows x pairs of operations), then random
+    res = pmap(c03_edits.run_view_product_case, c03_edits.view_product_items(full_product))
     for lst in res:
         n += len(lst)
         _report(ctx, lst)
+    res = pmap(c03_edits.run_view_seq_case, [(i, ctx.rng.randrange(1 << 30), max(10, per_family // 3))
+                                             for i in c03_edits.VIEW_SEQ_FAMILIES for _ in range(4)])
+    for lst in res:
+        n += len(lst)
+        _report(ctx, lst)
+    # real fields args / keywords / bases of calls with interleaved positional and keyword arguments
+    res = pmap(c03_edits.run_arglike_field_case, [(k, ctx.rng.randrange(1 << 30), max(10, per_family // 3))
+                                                  for k in ('Call', 'ClassDef') for _ in range(8)])
+    refused = 0
+    for lst in res:
+        n += len(lst)
+        refused += sum(1 for r in lst if r.get('refused'))
+        _report(ctx, lst)
+    ctx.notes['interleaved_arglike_requests_refused_for_ordering'] = ctx.notes.get('interleaved_arglike_requests_refused_for_ordering', 0) + refused
     rng = random.Random(ctx.rng.random())
     progs = corpus.programs(rng, n_progs, stdlib=n_progs // 15)
     res = pmap(c03_edits.run_corpus_case, [(p, ctx.rng.randrange(1 << 30), per_prog) for p in progs])
@@ -160,7 +188,7 @@ def _sweep(ctx, per_family, per_optional, n_progs, per_prog):
 
 def sweep(ctx):
     q = ctx.quick
-    n = _sweep(ctx, 100 if q else 800, 50 if q else 400, 300 if q else 2500, 8 if q else 12)
+    n = _sweep(ctx, 100 if q else 800, 50 if q else 400, 300 if q else 2500, 8 if q else 12, full_product=not q)
     ctx.notes['sweep_edits'] = n
     zero = [f.name + '/' + f.tag for f in c03_edits.FAMILIES
             if not ctx.dist.get('kind_field', {}).get(f.name + (('/' + f.tag) if f.tag else ''))]
@@ -168,7 +196,7 @@ def sweep(ctx):
 
 
 def search(ctx):
-    n = _sweep(ctx, 300, 200, 1500, 10)
+    n = _sweep(ctx, 300, 200, 1500, 10, full_product=True)
     ctx.notes['search_edits'] = n
 
 
@@ -180,6 +208,16 @@ def replay(ctx, data):
     from fst import FST
     import ast
     tag = w.get('tag') or ''
+    if tag == 'interleaved':
+        r = c03_edits.replay_interleaved(w)
+        if 'fail' in r:
+            ctx.fail(f'C03|{r["sigop"]}|{r["fam"]}|{r["fail"]}', f'{r["op"]} on {r["fam"]}: {r["fail"]} {r.get("detail", "")}', r)
+        return
+    if w.get('op') == 'view-sequence' and 'hist' in w:
+        r = c03_edits.replay_view_history(w)
+        if r and 'fail' in r:
+            ctx.fail(f'C03|view-sequence|{r["fam"]}|{r["fail"]}', f'{r["op"]} on {r["fam"]}: {r["fail"]} {r.get("detail", "")}', r)
+        return
     if tag == 'optional':
         oi = next(i for i, o in enumerate(c03_edits.OPTIONALS) if f'{o[0]}.{o[1]}' == w['fam'])
         for seed in range(40):
